@@ -69,7 +69,7 @@ Theorem future_first_in_block P S out : print_set P S = Some out ->
     Forall is_future_stmt fut /\ Forall (fun st => ~ is_future_stmt st) rest /\
     out = concat (map (pp P col) fut) ++ concat (map (pp P col) rest).
 Proof.
-  intros Hp. destruct (print_set_shape P S out Hp) as (col & ->).
+  intros Hp. destruct (print_set_shape P S out Hp) as (col & _ & ->).
   destruct (future_first (separate_from_imports P) S) as (fut & rest & E & Hf & Hr).
   exists col, fut, rest. repeat split; try assumption. rewrite E, map_app, concat_app. reflexivity.
 Qed.
